@@ -5,6 +5,7 @@ mod bridge;
 mod explore;
 mod families;
 mod lockstep;
+mod loomrun;
 mod poschecks;
 mod report;
 mod search;
